@@ -2,6 +2,7 @@ package main
 
 import (
 	"fmt"
+	"math"
 	"strings"
 	"time"
 
@@ -32,6 +33,8 @@ var handCorpus = []string{"a==1", "a == 1", "a == 1 and b == 2", "not a == 1", "
 	"ids.9223372036854775807 == 1", "ids.9223372036854775808 == 1", "ids.20260101093000123456 == 1", "x == ids.18446744073709551616", "1 in ids.99999999999999999999", "any ids.9223372036854775808 as v { v == 1 }", "a.00000000000000000000001 == 1",
 	"a == 1 and b == 2 and c == 3 and d == 4 and e == 5 and f == 6 and g == 7 and h == 8 and i == 9 and j == 10 and k == 11 and l == 12 and m == 13 and n == 14 and o == 15 and p == 16 and q == 17 and r == 18 and s == 19",
 	`(X == "\\") or (Y == "\\")`, "(X == `a\\`) and (Y == `b\\`)", `(X == "\\") or Z == 1 or (Y == "C:\\d\\")`, `(a == "(") or (b == ")")`, `(a == ")") and (b == "(")`, "(a == `)`) or (b == `(`)",
+	"foo.\nbar == 1", "foo == -\n1", "foo.\n", "a == 1 and\nb.\n== 2", "foo[\n\"k\"] == 1", "a ==\n", "\na == 1", "a == 1\n\n", "a.\r\nb == 1", "foo == \"x\ny\"", "foo\n.bar == 1", "-\n",
+	`any l as x { "" == 1 }`, `all l as i, x { "" is empty }`, `any l as x { any "" as y { y == 1 } }`, `any m as k, v { "" in v }`, `any l as x { "/" == 1 }`, `any l as x { x[""] == 1 }`,
 	`foo contains "-"`, `a == "0b"`, `a == "0o"`, `a == "--"`, `a == "+-"`, "a == `+`", `a["-"] == 1`, `a["+"] == "+"`, `"/-" == 1`, `"/+" == "-"`}
 
 var gSels = []string{"a", "b.c", `m["k"]`, `"/x/y"`, "l.0", "foo.bar.baz", "m[`r`]", `"/p~1q"`}
@@ -495,6 +498,50 @@ func runC11(r *Run) {
 				}
 			}
 			r.Seen("sweep|" + s)
+		}
+	}
+	// nesting so deep that the unlimited parse is out of reach: every practical budget must stop it, exactly
+	for _, depth := range []int{40, 600, 2500, 5000} {
+		s := strings.Repeat("(", depth) + "a == 1" + strings.Repeat(")", depth)
+		for _, b := range []uint64{10, 1000, 65536, 1 << 20} {
+			t0 := time.Now()
+			o := parseObs([]byte(s), b)
+			r.Evaluations++
+			r.Seen(fmt.Sprintf("deep|%d|%d", depth, b))
+			c := map[string]interface{}{"input": fmt.Sprintf("%d opening parentheses, a == 1, %d closing ones", depth, depth), "budget": b}
+			if want := fmt.Sprintf("R %d 1", b+1); o != want {
+				r.Violate("small-budget-not-exact", fmt.Sprintf("deep|%d|%d", depth, b), c, "expected "+want+" got "+truncate(o, 120))
+			}
+			if _, err := bexpr.CreateEvaluator(s, bexpr.WithMaxExpressions(b)); err == nil || !strings.Contains(err.Error(), "max number of expresssions parsed") {
+				r.Violate("option-small-budget", fmt.Sprintf("deep-option|%d|%d", depth, b), c, fmt.Sprintf("CreateEvaluator: err=%v", err))
+			}
+			if el := time.Since(t0); el > 2*budgetTime(b) {
+				r.Violate("budget-not-bounding-time", fmt.Sprintf("deep-time|%d|%d", depth, b), c, el.String())
+			}
+		}
+	}
+	// the budget option given more than once: the last one counts, whatever came before
+	for _, s := range []string{"a == 1", "a == 1 and b == 2 or c == 3", "a ==", `x == "\q"`} {
+		var N uint64
+		fmt.Sscanf(parseObs([]byte(s), 0)[2:], "%d", &N)
+		_, e0 := bexpr.CreateEvaluator(s)
+		for _, seq := range [][]uint64{{3, 0}, {3, N}, {3, 1 << 40}, {1, 2, 0}, {N, 3}, {0, 3}, {1 << 40, 3, N + 1}, {3, math.MaxUint64}, {3, 3, 0}} {
+			var opts []bexpr.Option
+			for _, b := range seq {
+				opts = append(opts, bexpr.WithMaxExpressions(b))
+			}
+			_, err := bexpr.CreateEvaluator(s, opts...)
+			last := seq[len(seq)-1]
+			r.Evaluations++
+			r.Seen(fmt.Sprintf("repeated-budget|%s|%v", s, seq))
+			c := map[string]interface{}{"input": s, "budgets_in_order": seq, "N": N}
+			if last == 0 || last >= N {
+				if (err == nil) != (e0 == nil) || (err != nil && err.Error() != e0.Error()) {
+					r.Violate("option-large-budget", fmt.Sprintf("repeated-budget|%s|%v", s, seq), c, fmt.Sprintf("the last budget suffices, yet: %v (without any budget: %v)", err, e0))
+				}
+			} else if err == nil || !strings.Contains(err.Error(), "max number of expresssions parsed") {
+				r.Violate("option-small-budget", fmt.Sprintf("repeated-budget|%s|%v", s, seq), c, fmt.Sprintf("the last budget is too small, yet: %v", err))
+			}
 		}
 	}
 	for _, s := range inputs {
